@@ -364,6 +364,39 @@ def check(ctx):
             chain = _chain(cg, callees, bad[0])
             ctx.violation("R-C16.3", f"self-nesting:{name}", f"the look-ahead scan of {name} (mark ... reset) reaches {bad[0]} via {' -> '.join(chain)}: nested speculation, the same tokens are scanned again at every nesting level",
                           file=px.rel, function=f"CParser.{name}", line=cg.methods[name].lineno)
+    # (a') a PURE token scan inside mark ... reset is still repeated work when it has no bound: a loop that skips to the matching bracket walks over
+    #      everything nested in the brackets, and if the production that runs the scan can occur again INSIDE those brackets (it lies on a cycle of the
+    #      call graph), every nesting level scans the levels below it once more: k levels cost ~k^2/2 token visits
+    for name in sorted(regions):
+        fn_ = cg.methods[name]
+        # helpers the region runs itself (closure through non-production helpers only: a production called inside the region is judged by (b))
+        todo_, helpers_ = [c for c, _ in regions[name]], set()
+        while todo_:
+            c = todo_.pop()
+            if c in helpers_ or c not in cg.methods or c in ex.productions or c.startswith(("_parse_", "_try_parse_")):
+                continue
+            helpers_.add(c)
+            todo_ += list(cg.callees(c))
+        scan_fns = [fn_] + [cg.methods[c] for c in sorted(helpers_)]
+        unbounded = []
+        for f_ in scan_fns:
+            for lp in ast.walk(f_):
+                if not isinstance(lp, ast.While):
+                    continue
+                advances = any(isinstance(c_, ast.Call) and isinstance(c_.func, ast.Attribute) and c_.func.attr in ("_advance",) for c_ in ast.walk(lp))
+                counts_brackets = any(isinstance(a_, ast.AugAssign) and isinstance(a_.op, (ast.Add, ast.Sub)) for a_ in ast.walk(lp)) and any(isinstance(c_, ast.Constant) and c_.value in ("LPAREN", "LBRACKET", "LBRACE") for c_ in ast.walk(lp))
+                if advances and counts_brackets:
+                    unbounded.append((f_.name, lp.lineno))
+        if not unbounded:
+            continue
+        users = sorted(m for m in cg.methods if name in cg.callees(m) and m != name)
+        cyc = sorted(u for u in users if u in cg.reachable(cg.callees(u)))
+        ok = not cyc
+        ctx.oblige("R-C16.3", f"bracket-skipping scan of {name} is not repeated per nesting level", ok, sample={"rule": "R-C16.3", "scan": name, "bracket-skipping loops": unbounded, "used by": users, "users on a call-graph cycle": cyc})
+        if not ok:
+            ctx.violation("R-C16.3", f"rescan:{name}", f"the look-ahead scan {name} skips to the matching bracket ({unbounded[0][0]}, line {unbounded[0][1]}) - over everything nested inside - and is run by {cyc[0]}, which can occur again inside "
+                          f"those brackets ({' -> '.join(_chain(cg, cg.callees(cyc[0]), cyc[0]))}): every nesting level re-scans the levels below it, so k nested declarators cost ~k^2 token visits",
+                          file=px.rel, function=f"CParser.{name}", line=unbounded[0][1])
     # (b) all other speculations, on the extracted automata: a discarded speculation that parsed a production and whose continuation
     #     re-parses the same tokens on a path that can still succeed doubles the work; if the region can re-enter itself the doubling nests
     nheavy = 0
